@@ -499,6 +499,9 @@ func Explore(run func() interface{}) {
 		case nil:
 		case pathInfeasible:
 			e.Infeasible++
+			if os.Getenv("ZX_PROGRESS") != "" {
+				fmt.Fprintf(os.Stderr, "infeasible prefix: dec=%d work=%d wall=%v\n", len(e.vec), len(e.work), time.Since(tRun).Round(time.Millisecond))
+			}
 			continue
 		case pathEnd:
 		case blocked:
